@@ -16,10 +16,14 @@ package ledgerstore
 //@   requires sqlSafe(key)
 //@   ensures sqlSafe(ret0)
 //@   loop 2 invariant allSafe(parts)
+// every argument it binds is a plain string (never a bun.Safe)
+//@   ensures forall i3 in 0..len(ret1) :: typeis(ret1[i3], "string")
+//@   loop 2 invariant forall j3 in 0..len(args) :: typeis(args[j3], "string")
 
 //@ func ledgerstore.filterAccountAddressOnTransactions
 //@   property C20
 //@   ensures sqlSafe(ret0)
+//@   ensures forall i4 in 0..len(ret1) :: typeis(ret1[i4], "string")
 
 // (inline: callers see the closure itself, so bun's Apply runs it on their query)
 //@ func ledgerstore.filterPIT
@@ -62,3 +66,16 @@ package ledgerstore
 //@ func (*ledgerstore.Store).GetAggregatedBalances$2
 //@   property C20
 //@   captures sqlSafe(subQuery)
+
+// ---- C04: what a transaction read reports. The row's own columns are passed through; pre-commit volumes are derived from
+// the post-commit volumes the query returned (post minus this transaction's postings) -- and only from those: a kind of
+// volumes that was not requested (nil) stays absent instead of being reported as the negated postings.
+//@ func (*ledgerstore.ExpandedTransaction).toCore
+//@   requires t != nil
+//@   ensures ret != nil && ret.Transaction.TransactionData.Postings == t.Postings && ret.Transaction.TransactionData.Reference == t.Reference && ret.Transaction.TransactionData.Timestamp == t.Timestamp && ret.Transaction.TransactionData.Metadata == t.Metadata
+//@   ensures ret.PostCommitVolumes == t.PostCommitVolumes && ret.PostCommitEffectiveVolumes == t.PostCommitEffectiveVolumes
+//@   ensures t.PostCommitVolumes == nil ==> ret.PreCommitVolumes == nil
+//@   ensures t.PostCommitEffectiveVolumes == nil ==> ret.PreCommitEffectiveVolumes == nil
+//@   ensures t.PostCommitVolumes != nil ==> ret.PreCommitVolumes != nil
+//@   ensures t.PostCommitEffectiveVolumes != nil ==> ret.PreCommitEffectiveVolumes != nil
+//@   property C04
